@@ -54,6 +54,11 @@ def run_one(entry, worker):
         variant.cleanup(worker)
 
 
+def _work(args):
+    w, bucket = args
+    return [run_one(e, w + 1) for e in bucket]
+
+
 def run(ids=None, props=None, jobs=6, verbose=True):
     entries = load()
     if ids:
@@ -67,13 +72,9 @@ def run(ids=None, props=None, jobs=6, verbose=True):
     for i, e in enumerate(entries):
         buckets[i % jobs].append(e)
 
-    def work(w):
-        out = []
-        for e in buckets[w]:
-            out.append(run_one(e, w + 1))
-        return out
-    with concurrent.futures.ThreadPoolExecutor(max_workers=jobs) as ex:
-        for out in ex.map(work, range(jobs)):
+    # processes, not threads: rule evaluation is CPU-bound Python
+    with concurrent.futures.ProcessPoolExecutor(max_workers=jobs) as ex:
+        for out in ex.map(_work, [(w, buckets[w]) for w in range(jobs)]):
             results.extend(out)
     for w in range(jobs):
         variant.cleanup(w + 1, target_too=True)
